@@ -250,6 +250,11 @@ def bcastKind : CKind → OutKind
   | .set => .same .set
   | .frozenset => .same .frozenset
   | .deque => .same .deque
+  | .sub b c => .same (.sub b c)          -- the argument's own class, not its builtin base
+
+/-- the builtin class an instance of a subclass of this base would be DOWNCAST to (what the result must not be) -/
+def CBase.builtin : CBase → CKind
+  | .list => .list | .tuple => .tuple | .set => .set | .frozenset => .frozenset | .deque => .deque | .sequence => .list
 
 def BOut.kind : BOut → OutKind
   | .value _ => .value
